@@ -154,13 +154,20 @@ def extract_part(part, F, default_xform):
     if part.init_list:
         k = o - 1; d = 0
         # walk back from '{' to the ':' that starts the initialiser list (depth 0)
+        has_list = False
         while k > 0:
             t = tk[k]
-            if t in (')', '}'): d += 1
-            elif t in ('(', '{'): d -= 1
-            elif t == ':' and d == 0: break
+            if t in (')', '}'):
+                if t == '}' and d == 0: break                      # end of the previous member: no initialiser list
+                d += 1
+            elif t in ('(', '{'):
+                if d == 0: break
+                d -= 1
+            elif t == ';' and d == 0: break
+            elif t == ':' and d == 0:
+                has_list = tk[k - 1] not in ('public', 'private', 'protected'); break
             k -= 1
-        init = tk[k + 1:o]; pre = []; q = 0
+        init = tk[k + 1:o] if has_list else []; pre = []; q = 0      # a constructor that lost its initialiser list extracts with none (a contract then fails), not as drift
         while q < len(init):
             name = init[q]
             if init[q + 1] not in ('(', '{'): raise Drift("unsupported member initialiser")
